@@ -463,32 +463,30 @@ impl<T> DataReaderEntity<T> {
             return Ok(AddChangeResult::NotAdded);
         }
 
-        // History depth and resource limits apply to data samples only
-        if matches!(sample.kind, ChangeKind::Alive | ChangeKind::AliveFiltered) {
-            // With KEEP_LAST the oldest sample of the instance makes room for the new one, so that
-            // the history depth alone never causes a rejection
-            if let HistoryQosPolicyKind::KeepLast(depth) = self.qos.history.kind {
-                let num_alive_samples_of_instance = self
+        // With KEEP_LAST the oldest sample of the instance makes room for the new one, so that the
+        // history depth alone never causes a rejection
+        if let HistoryQosPolicyKind::KeepLast(depth) = self.qos.history.kind {
+            let num_alive_samples_of_instance = self
+                .sample_list
+                .iter()
+                .filter(|cc| {
+                    cc.instance_handle == sample.instance_handle && cc.kind == ChangeKind::Alive
+                })
+                .count() as u32;
+            if depth == num_alive_samples_of_instance {
+                let index_sample_to_remove = self
                     .sample_list
                     .iter()
-                    .filter(|cc| {
-                        cc.instance_handle == sample.instance_handle
-                            && cc.kind == ChangeKind::Alive
+                    .position(|cc| {
+                        cc.instance_handle == sample.instance_handle && cc.kind == ChangeKind::Alive
                     })
-                    .count() as u32;
-                if depth == num_alive_samples_of_instance {
-                    let index_sample_to_remove = self
-                        .sample_list
-                        .iter()
-                        .position(|cc| {
-                            cc.instance_handle == sample.instance_handle
-                                && cc.kind == ChangeKind::Alive
-                        })
-                        .expect("Samples must exist");
-                    self.sample_list.remove(index_sample_to_remove);
-                }
+                    .expect("Samples must exist");
+                self.sample_list.remove(index_sample_to_remove);
             }
+        }
 
+        // Resource limits apply to data samples only
+        if matches!(sample.kind, ChangeKind::Alive | ChangeKind::AliveFiltered) {
             let is_max_samples_limit_reached = {
                 let total_samples = self
                     .sample_list
